@@ -15,6 +15,8 @@ CLAIMED = {
          "Source trees <=3 leaves, depth <=2; numbers unbounded."),
  "C05": ("§6 C05", "Per-account credit totals equal the ordered/allotment distribution of the reference for all sent amounts and caps (zero, negative, huge), kept in every position; credited + kept = sent.",
          "Destination trees bounded (clauses <=5, nesting <=3)."),
+ "C06": ("§6 C06", "makeAllotment executed symbolically for every enumerated portion vector (literals, portion variables, remaining in every position) with the amount an arbitrary integer >= 0: shares sum to the amount, each share is floor(p*M) plus one unit for the first M - sum(floors) clauses, sums != 1 are rejected; the same through the public API for source and destination allotments.",
+         "Portion vectors are enumerated on a denominator grid (p*M with both symbolic is non-linear); the amount is unbounded."),
  "C07": ("§6 C07", "interpreter.Reconcile executed symbolically on arbitrary positive sender/receiver amounts with equal totals, every aliasing pattern of names and <kept> in every position: net flow per (source, destination) equals the closed-form in-order pairing; kept units are never posted.",
          "List lengths bounded (quick 3x3, thorough 4x5); amounts unbounded."),
  "C08": ("§6 C08", "save followed by sends (and interleavings) through the public API: flows equal the reference in which save lowers the visible balance to max(0, b-n) (never raising a negative balance); negative saves are rejected.",
